@@ -21,6 +21,8 @@ func (m *Machine) to64(t *T, ty types.Type) *T {
 	return ZExt(64, t)
 }
 
+var fpIgnoreZeroSign bool
+
 func fuf(name string, w int, a ...*T) *T { return App(name, w, a...) }
 
 func (m *Machine) binop(op token.Token, xt types.Type, a, b Value, yt types.Type) Value {
@@ -282,6 +284,19 @@ func (m *Machine) floatOp(op token.Token, w int, x, y *T) Value {
 	sfx := fmt.Sprint(w)
 	switch op {
 	case token.ADD:
+		// IEEE-754 (round to nearest): x + (+0) = x except (-0) + (+0) = +0 ; x + (-0) = x (NaN payloads aside)
+		signBit := uint64(1) << uint(w-1)
+		for _, p := range [][2]*T{{x, y}, {y, x}} {
+			if p[1].IsC && p[1].C == 0 {
+				if fpIgnoreZeroSign {
+					return p[0] // -0.0 and +0.0 identified (stated abstraction of the C18 lane equalities)
+				}
+				return Ite(Eq(p[0], BV(w, signBit)), BV(w, 0), p[0])
+			}
+			if p[1].IsC && p[1].C == signBit {
+				return p[0]
+			}
+		}
 		if x.id > y.id {
 			x, y = y, x
 		}
